@@ -42,6 +42,9 @@ def merge(rep, d):
     rep.extra["queries"] = rep.extra.get("queries", 0) + d["extra"].get("queries", 0)
     rep.extra.setdefault("contract_times", [])
     rep.extra["contract_times"] += d["extra"].get("contract_times", [])
+    for k, a in d["extra"].get("aux", {}).items():
+        t = rep.extra.setdefault("aux", {}).setdefault(k, {"ok": 0, "failed": 0, "where": []})
+        t["ok"] += a["ok"]; t["failed"] += a["failed"]; t["where"] = (t["where"] + a["where"])[:5]
 
 
 def run_contracts(rep, cmod_name, tier, seed, select=None, workers=16, accept_props=None):
